@@ -4,7 +4,8 @@ import json, subprocess, sys, xml.etree.ElementTree as ET, os, tempfile
 repo = sys.argv[1] if len(sys.argv) > 1 else "/repo"
 out = tempfile.mktemp(suffix=".xml", dir="/tmp")
 subprocess.run(["/venv/bin/python", "-m", "pytest", "-ra", "-q", "-p", "no:cacheprovider", "--timeout=900",
-                "--continue-on-collection-errors", "--junitxml=" + out], cwd=repo, capture_output=True)
+                "--continue-on-collection-errors", "--junitxml=" + out], cwd=repo, capture_output=True,
+               env=dict(os.environ, PYTHONPATH=repo))
 base = json.load(open("/root/.vp/BASELINE.json"))
 passed = set()
 for tc in ET.parse(out).getroot().iter("testcase"):
